@@ -151,9 +151,9 @@ theorem tr_semV {cfg : Config} {s s' : State} {t : Tid} {k : SemId}
       exact .semVWake t k r q hl hc
   · rename_i hl
     simp only [need_ok] at h
-    obtain ⟨_, h⟩ := h
+    obtain ⟨hopen, h⟩ := h
     cases h
-    exact .semOther _ _ rfl
+    exact .semOther _ _ rfl (fun u hu => by simp only [Event.tid, Option.some.injEq] at hu; subst hu; exact hopen)
 
 theorem tr_semPdEnter {cfg : Config} {s s' : State} {t : Tid} {k : SemId} {dl : Option Nat}
     (h : stepSemPdEnter s t k dl = .ok s') : Tr cfg s (.semPdEnter t k dl) s' := by
@@ -170,8 +170,8 @@ theorem tr_semPdEnter {cfg : Config} {s s' : State} {t : Tid} {k : SemId} {dl : 
     obtain ⟨hk, hd, h⟩ := h
     cases h
     exact .loc (.semPdEnterC k dl hl hk hd)
-  · cases h; exact .same _ rfl
-  · cases h; exact .same _ rfl
+  · cases h; exact .same _ rfl rfl
+  · cases h; exact .same _ rfl rfl
   · cases h
 
 theorem tr_semPdRet {cfg : Config} {s s' : State} {t : Tid} {k : SemId} {to : Bool}
@@ -215,12 +215,18 @@ theorem tr_semPdRet {cfg : Config} {s s' : State} {t : Tid} {k : SemId} {to : Bo
       simp only [need_ok] at h
       cases h.2
       exact .semPdRetOkC t k hl
-  · split at h
-    · cases h; exact .same _ rfl
-    · simp only [need_ok] at h; cases h.2; exact .semOther _ _ rfl
-  · split at h
-    · cases h; exact .same _ rfl
-    · simp only [need_ok] at h; cases h.2; exact .semOther _ _ rfl
+  · rename_i hl
+    split at h
+    · cases h; exact .same _ rfl rfl
+    · simp only [need_ok] at h; cases h.2
+      exact .semOther _ _ rfl (fun u hu => by
+        simp only [Event.tid, Option.some.injEq] at hu; subst hu; simp [hl, Loc.isOpen])
+  · rename_i hl
+    split at h
+    · cases h; exact .same _ rfl rfl
+    · simp only [need_ok] at h; cases h.2
+      exact .semOther _ _ rfl (fun u hu => by
+        simp only [Event.tid, Option.some.injEq] at hu; subst hu; simp [hl, Loc.isOpen])
   · cases h
 
 end NsyncVerif.CvFix
